@@ -25,12 +25,12 @@ Traces == Doc.traces
 ASSUME TLCSet(1, {}) /\ TLCSet(2, [t \in 1..Len(Traces) |-> 0])
 
 (* ---- JSON -> values of IndependenceBase *)
-LinkT(j) == [orders |-> j.orders, atoms |-> [a \in DOMAIN j.atoms |-> [oi |-> j.atoms[a].oi, an |-> j.atoms[a].an, rn |-> ToSet(j.atoms[a].rn), mk |-> j.atoms[a].mk]],
+LinkT(j) == [orders |-> j.orders, atoms |-> [a \in DOMAIN j.atoms |-> [oi |-> j.atoms[a].oi, an |-> j.atoms[a].an, rn |-> ToSet(j.atoms[a].rn), mk |-> j.atoms[a].mk, ty |-> j.atoms[a].ty]],
              inters |-> j.inters, rep |-> j.rep, del |-> ToSet(j.del)]
 FFT(j) == [blocks |-> [b \in DOMAIN j.blocks |-> [j.blocks[b] EXCEPT !.cite = ToSet(@)]], links |-> [q \in DOMAIN j.links |-> LinkT(j.links[q])],
            mods |-> j.mods, bib |-> ToSet(j.bib), files |-> j.files]
 TFFs == [i \in DOMAIN Doc.ffs |-> FFT(Doc.ffs[i])]
-TNoDev == [itpGlobal |-> FALSE]
+TNoDev == [itpGlobal |-> FALSE, replaceVisible |-> FALSE]
 CaseT(j) == [id |-> j.id, ff |-> j.ff, n |-> j.n, start |-> j.start, rn |-> j.rn, fi |-> j.fi, E |-> {{e[1], e[2]} : e \in ToSet(j.E)}, mods |-> j.mods, mark |-> j.mark]
 ErrClass(e) == IF e \in {"KeyError:mod", "KeyError:resid", "KeyError:modatom", "KeyError:nodekey"} THEN "KeyError" ELSE e
 ProjT(p) == IF p.err # "" THEN [err |-> p.err]
